@@ -172,7 +172,7 @@ func (p *Packer) Pack(src string, w io.Writer) (*Meta, error) {
 	}
 
 	// Walk the tree of files.
-	err = filepath.Walk(src, p.packWalkFn(src, src, src, tarW, meta, ignoreRules))
+	err = filepath.Walk(src, p.packWalkFn(src, src, src, tarW, meta, ignoreRules, nil))
 	if err != nil {
 		return nil, err
 	}
@@ -190,7 +190,10 @@ func (p *Packer) Pack(src string, w io.Writer) (*Meta, error) {
 	return meta, nil
 }
 
-func (p *Packer) packWalkFn(root, src, dst string, tarW *tar.Writer, meta *Meta, ignoreRules *ignorefiles.Ruleset) filepath.WalkFunc {
+// The dereferenced argument lists the external directories that are currently
+// being walked in place of a symlink, innermost last; it is used to stop at
+// directories that (indirectly) link back to themselves.
+func (p *Packer) packWalkFn(root, src, dst string, tarW *tar.Writer, meta *Meta, ignoreRules *ignorefiles.Ruleset, dereferenced []string) filepath.WalkFunc {
 	return func(path string, info os.FileInfo, err error) error {
 		if err != nil {
 			return err
@@ -286,7 +289,17 @@ func (p *Packer) packWalkFn(root, src, dst string, tarW *tar.Writer, meta *Meta,
 			// If the target is a directory we can recurse into the target
 			// directory by calling the packWalkFn with updated arguments.
 			if resolved.info.IsDir() {
-				return filepath.Walk(resolved.absTarget, p.packWalkFn(root, resolved.absTarget, path, tarW, meta, ignoreRules))
+				if len(dereferenced) >= maxExternalLinkHops {
+					return fmt.Errorf("too many nested symlinked directories at %q", path)
+				}
+				for _, dir := range dereferenced {
+					if dir == resolved.absTarget {
+						return fmt.Errorf("symlink %q leads back to %q, which is already being archived", path, dir)
+					}
+				}
+				// Copy, so that sibling links do not share one backing array.
+				nested := append(append([]string{}, dereferenced...), resolved.absTarget)
+				return filepath.Walk(resolved.absTarget, p.packWalkFn(root, resolved.absTarget, path, tarW, meta, ignoreRules, nested))
 			}
 
 			// Like special files inside the tree, a link to a fifo, socket or
